@@ -33,9 +33,10 @@ FUNCTIONS = [
     "monkeytype.stubs.get_imports_for_signature / build_module_stubs / ModuleStub.render",
 ]
 FUNCS = (F.ann_class, F.ann_generic, F.ann_optional, F.ann_string, F.ann_newtype, F.ann_none_default, F.ann_iter, F.ann_any,
-         F.unannotated, F.defaults, F.Klass.method, F.kw_only)
+         F.unannotated, F.defaults, F.Klass.method, F.kw_only, F.Deco.annotated_self, F.Deco.__dict__["annotated_cls"].__func__,
+         F.ann_union_none_default)
 STRATEGIES = (S.REPLICATE, S.OMIT, S.IGNORE)
-TRACED_TYPES = (int, K.B, List[str], Optional[K.A], type(None))
+TRACED_TYPES = (int, typing.Union[int, str], List[str], K.B, Optional[K.A], type(None))
 SHAPES = ("return", "yield", "yield+return", "yield+None", "nothing")
 
 
@@ -90,7 +91,11 @@ def annot_body(t, funcs=FUNCS, types=TRACED_TYPES):
         got = fi.annotations.get(n)
         want = "unchecked"
         if is_recv:
-            want = None
+            # never given a traced type; a source annotation on it follows the strategy like any other
+            if src is None or strategy is S.OMIT:
+                want = None
+            elif strategy is S.REPLICATE:
+                want = src
         elif src is not None:
             if strategy is S.REPLICATE:
                 want = src
